@@ -363,6 +363,18 @@ pub fn adversarial(r: &mut Rng) -> Vec<Vec<OpCode>> {
     v.push(vec![PushI(U256::from(258u32)), ItoB, BtoI]);
     v.push(vec![]);
     v.push(vec![Noop]);
+    // jumps over a loop header into its body: the body of a Loop that runs zero times (or of any loop) can still
+    // be reached by a forward jump, and whatever runs there must have been weighed
+    for (it, inner) in [(0u16, 300u16), (0, 3), (1, 300), (0, 65535)] {
+        v.push(vec![PushI(U256::ZERO), Jmp(1), Loop(it, 3), Loop(inner, 2), one(), Add]);
+        v.push(vec![PushI(U256::ZERO), PushI(U256::ZERO), Bez(1), Loop(it, 3), Loop(inner, 2), one(), Add]);
+        v.push(vec![PushI(U256::ZERO), Jmp(2), Loop(it, 4), Noop, Loop(inner, 2), one(), Add]);
+    }
+    v.push(vec![Jmp(1), Loop(0, 2), Loop(0, 1), Loop(200, 1), Noop]);
+    // nested loops that end on the same instruction, outer loop with several iterations
+    v.push(vec![PushI(U256::ZERO), Loop(3, 5), Loop(4, 4), one(), Add, Noop, Noop]);
+    v.push(vec![PushI(U256::ZERO), Loop(5, 3), Loop(2, 2), one(), Add]);
+    v.push(vec![PushI(U256::ZERO), Loop(2, 4), Loop(2, 3), Loop(2, 2), one(), Add]);
     // known finding F12: k consecutive Loop opcodes cost 2^k opcodes_car_weight calls
     v.push(vec![Loop(1, 65535); 14]);
     // regression (fixed F13): BtoI on a long byte string must fail without materialising it
